@@ -697,11 +697,20 @@ static void mutate(const art_t *a, unsigned kind, unsigned pos, unsigned v, cur_
     switch (kind) {
     case 0: if (Wn) { size_t bit = pos % (Wn * 8); if (pos >= 0x8000 && Wn > 40) bit = (Wn * 8) - 1 - (pos % 320); W[bit / 8] ^= (unsigned char)(1u << (bit % 8)); } break;
     case 1: if (Wn) W[pos % Wn] = (unsigned char)v; break;
-    case 2: if (v & 1) Wn = pos % (Wn + 1); else if (Wn) Wn -= 1 + (pos % (Wn < 40 ? Wn : 40)); break;
+    case 2:
+        if (v & 1) Wn = pos % (Wn + 1); else if (Wn) Wn -= 1 + (pos % (Wn < 40 ? Wn : 40));
+        /* DER: keep the outer SEQUENCE length consistent, so that the truncation is seen by the INTEGER length checks, not the first one */
+        if ((cur_ac == AC_DER || cur_ac == AC_LAXDER) && (pos & 0x4000) && Wn >= 2 && Wn < 130) W[1] = (unsigned char)(Wn - 2);
+        break;
     case 3: { size_t add = 1 + pos % 64; if (Wn + add > WMAX) add = WMAX - Wn; memset(W + Wn, (int)v, add); Wn += add; break; }
     case 4:
         if (a && (pos & 0x200) && (cur_ac == AC_SURJ || cur_ac == AC_WL)) { vf_class(X_REENCODE); reencode_count(a, pos, v); }
-        else if (a && a->nlen && Wn) { size_t o = (size_t)a->lenf[pos % (unsigned)a->nlen]; if (o < Wn) { if (pos & 0x100) W[o] = (unsigned char)v; else W[o] = (unsigned char)(W[o] + (int)(v % 9) - 4); } }
+        else if (a && a->nlen && Wn) {
+            /* set to a free byte, to a boundary byte (counts / mantissa / exponent / prefix limits), or add a small delta */
+            static const unsigned char BT[16] = {0, 1, 18, 19, 31, 32, 33, 63, 64, 65, 0x7F, 0x80, 0x81, 0xFE, 0xFF, 0x40 | 19};
+            size_t o = (size_t)a->lenf[pos % (unsigned)a->nlen];
+            if (o < Wn) { if (pos & 0x100) W[o] = (pos & 0x800) ? BT[v & 15] : (unsigned char)v; else W[o] = (unsigned char)(W[o] + (int)(v % 9) - 4); }
+        }
         else if (Wn) W[pos % (Wn < 12 ? Wn : 12)] = (unsigned char)v;
         break;
     case 5: if (field_off(a, pos, &off)) boundary_value(W + off, v); break;
